@@ -2,6 +2,7 @@ package main
 
 import (
 	"fmt"
+	"go/token"
 	"go/types"
 	"strings"
 
@@ -162,13 +163,29 @@ func checkEventFields(p *Prog, r *Roles, res *Result) {
 	}
 	slotRev := p.structField("pkg/backend/common", "WatchEvent", "Revision")
 	construct := funcName(seq) + ": event revision is the slot's revision"
+	// the event may be built by a helper of the sequencer: look in the sequencer and its direct local callees
+	scope := append([]*ssa.Function{seq}, localHelpers(seq, seq.Pkg)...)
+	inScope := func(f *ssa.Function) bool {
+		for _, g := range scope {
+			if g == f {
+				return true
+			}
+		}
+		return false
+	}
 	n := 0
 	for _, s := range p.fields().stores[evRev] {
-		if s.Parent() != seq {
+		if !inScope(s.Parent()) {
 			continue
 		}
 		n++
-		if isFieldOf(s.Val, slotRev, ev) {
+		good := false
+		if u, ok := resolve(s.Val).(*ssa.UnOp); ok && u.Op == token.MUL {
+			if fa, ok := u.X.(*ssa.FieldAddr); ok && fieldOf(fa) == slotRev && sameVal(fa.X, ev) {
+				good = true
+			}
+		}
+		if good {
 			res.ok("C06-R1", construct, p.pos(s.Pos()), "Event.Revision = slot.Revision")
 		} else {
 			res.bad("C06-R1", construct, p.pos(s.Pos()), "the event is stamped with a revision other than the one of the stored version: replaying events no longer matches the store")
